@@ -13,6 +13,20 @@
 #if defined _OPENMP
 
 #include <omp.h>
+#if defined SOXR_VERIF /* Verification hook (add-only): route the lock primitives through a deterministic scheduler. */
+  typedef struct {int held, inited, id;} soxr_verif_lock_t;
+  void soxr_verif_init_lock(soxr_verif_lock_t *, char const *);
+  void soxr_verif_destroy_lock(soxr_verif_lock_t *, char const *);
+  void soxr_verif_set_lock(soxr_verif_lock_t *, char const *);
+  void soxr_verif_unset_lock(soxr_verif_lock_t *, char const *);
+  void soxr_verif_yield(char const *);
+  #define omp_lock_t soxr_verif_lock_t
+  #define omp_init_lock(l) soxr_verif_init_lock(l, #l)
+  #define omp_destroy_lock(l) soxr_verif_destroy_lock(l, #l)
+  #define omp_set_lock(l) soxr_verif_set_lock(l, #l)
+  #define omp_unset_lock(l) soxr_verif_unset_lock(l, #l)
+  #define SOXR_VERIF_YIELD(tag) soxr_verif_yield(tag)
+#endif
 
 typedef struct {
   int readcount, writecount; /* initial value = 0 */
